@@ -23,4 +23,26 @@ def notified (callbacks : List Sub) (c : Cls) : List Nat :=
 
 def parseCls (n : String) : Option Cls := Cls.all.find? fun c => c.name == n
 
+/-! ### the documented hierarchy (docs/events.rst, "*Subtype Of*"), independent of the classes -/
+
+/-- the documented parent of the type named `n` (`none`: documented as a root, or not documented) -/
+def docParentName (n : String) : Option String := (documented.lookup n).join
+
+/-- `n` and its documented supertypes, nearest first (at most `fuel` of them) -/
+def docChainN : Nat → String → List String
+  | 0, _ => []
+  | fuel + 1, n => n :: (match docParentName n with
+    | some p => docChainN fuel p
+    | none => [])
+
+/-- the documented ancestor-or-self chain of a registered type, by name; empty if the type is not documented -/
+def docChain (c : Cls) : List String :=
+  if (documented.lookup c.name).isSome then docChainN documented.length c.name else []
+
+/-- the documented parent of a registered type, if it is a registered type -/
+def documentedParent (c : Cls) : Option Cls := (docParentName c.name).bind parseCls
+
+/-- "an event of type `c` is a `t`" as docs/events.rst says it: `t` is `c` or one of its documented supertypes -/
+def docInstance (c t : Cls) : Bool := (docChain c).contains t.name
+
 end Sv.Events
